@@ -447,7 +447,7 @@ func (w *world) execOp(t int, op *Op, in *slotVal) (res opResult, out slotVal) {
 			w.dirty[t] = xrPointers(p, w.dirty[t])
 		}
 	case opMarshalList:
-		l := in.l
+		l := permuteList(in.l, op.N)
 		guarded(&res, func() {
 			b, err := vopMarshalList(l)
 			res.addBytes(b)
@@ -617,6 +617,31 @@ func (w *world) execOp(t int, op *Op, in *slotVal) (res opResult, out slotVal) {
 		res.outDumpM = dumpSem(res.outList, true)
 	}
 	return
+}
+
+// permuteList returns a re-ordered selection of l (same packet pointers, fresh slice):
+// what a forwarder does when it drops, re-orders or picks packets of a decoded datagram.
+func permuteList(l []rtcp.Packet, mode int) []rtcp.Packet {
+	n := len(l)
+	if n < 2 || mode <= 0 {
+		return l
+	}
+	var out []rtcp.Packet
+	switch mode % 4 {
+	case 1: // reversed
+		for i := n - 1; i >= 0; i-- {
+			out = append(out, l[i])
+		}
+	case 2: // first and last
+		out = append(out, l[0], l[n-1])
+	case 3: // without the second
+		out = append(out, l[0])
+		out = append(out, l[2:]...)
+	default: // rotated by one
+		out = append(out, l[1:]...)
+		out = append(out, l[0])
+	}
+	return out
 }
 
 // mutateInto overwrites the exported fields of dst with those of a fresh
